@@ -110,7 +110,31 @@ def prefix_task(task):
             hi = (task["part"] + 1) * size // task["parts"]
             positions = range(lo, hi)
         errors = {}
-        for n in positions:
+        import zlib
+
+        payload = zlib.decompress(blob, 31)
+
+        def holds_everything(n):
+            """Does the prefix of length n still carry the complete pickled content (cut inside the gzip trailer)?"""
+            d = zlib.decompressobj(31)
+            try:
+                return d.decompress(blob[:n]) == payload
+            except zlib.error:
+                return False
+
+        refresh = 64 if task.get("long") else 16
+        for k, n in enumerate(positions):
+            if k % refresh == 0:
+                # 'or the file is later truncated': the complete file sits at this very path and is read successfully
+                # before it is cut short
+                with open(cut, "wb") as fh:
+                    fh.write(blob)
+                r0 = READERS[(k // refresh) % len(READERS)]
+                st, out = run_reader(r0, cut, outdir)
+                part.count("complete_file_read_at_the_path_before_truncation")
+                if st != "ok" or out != full[r0]:
+                    part.violation("%s command does not reproduce its results on the complete trace" % r0,
+                                   {"chains": task["chains"], "file_size": size, "status": st})
             with open(cut, "wb") as fh:
                 fh.write(blob[:n])
             for r in READERS:
@@ -118,9 +142,14 @@ def prefix_task(task):
                 part.count("evaluations")
                 if st == "error":
                     errors[out] = errors.get(out, 0) + 1
-                elif out == full[r]:
+                elif out == full[r] and holds_everything(n):
                     part.count("prefixes_read_completely")
                     part.see("complete|%d|%d" % (task["chains"], size - n))
+                elif out == full[r]:
+                    part.violation("%s command produced the complete file's results from a truncated trace that no "
+                                   "longer holds them (content of an earlier read of the same path)" % r,
+                                   {"chains": task["chains"], "clustered": task["clustered"], "file_size": size,
+                                    "prefix_length": n, "seed": task["seed"]})
                 else:
                     part.violation("%s command produced results from a truncated trace (differing from the complete "
                                    "file's results)" % r,
@@ -284,13 +313,14 @@ def run(ctx):
     ctx.level = "fault_enumeration"
     ctx.rule = ("crash points = every byte prefix (0..size-1) of trace files written by the real writer from real chain runs "
                 "(1 chain unclustered, 3 chains clustered; thorough adds 2 more), each read by map, consensus and "
-                "topology-report in-process; a long trace (1100 entries) at a stride of prefixes plus head and tail (quick) or "
+                "topology-report in-process, at one path at which the complete file is read successfully before it is cut short; a long trace (1100 entries) at a stride of prefixes plus head and tail (quick) or "
                 "every prefix (thorough); plus real `phyclone run` processes whose final write is cut at byte N by a "
                 "failpoint (killed / ENOSPC) and read back by the real CLI; plus multi-chain runs interrupted after k of n "
                 "chains completed (a chain's worker killed, or raising), whatever is left at the output path read by "
                 "the three summary commands; distinct = (trace, prefix length)")
     ctx.assumptions = ["a reader that loads the complete content from a prefix cut inside the 8-byte gzip trailer and "
-                       "writes results identical to the complete file's is accepted",
+                       "writes results identical to the complete file's is accepted (the prefix is decompressed "
+                       "independently: it must still hold the whole pickled content)",
                        "the trace is written by one gzip stream at the end of the run (create_main_run_output)"]
     traces = [(1, False), (3, True)] + ([] if quick else [(2, False), (4, True)])
     parts = 5 if quick else 16
